@@ -74,8 +74,14 @@ func kind(name string) string {
 	return string(out)
 }
 
+// slots bounds the number of gnark operations (verifications, contributions) in flight: the
+// machine is shared and the multi-exponentiations inside fan out on their own.
+var slots = make(chan struct{}, 8)
+
 // safe runs f converting a panic into a string.
 func safe(f func() error) (err error, pan string) {
+	slots <- struct{}{}
+	defer func() { <-slots }()
 	p, stack := vcore.Catch(func() { err = f() })
 	if p != nil {
 		return nil, fmt.Sprintf("%v\n%s", p, stack)
